@@ -1,6 +1,6 @@
 """C09 - see DESIGN.md 5/C09 (Lifecycle.tla)."""
 from harness import core
-from checks import suite_lifecycle, suite_drolifecycle
+from checks import suite_lifecycle, suite_drolifecycle, suite_sharing
 
 
 def main(tier):
@@ -14,6 +14,7 @@ def main(tier):
                        'oracle = the same library on a fresh single-constraint model (relational, as the property is stated)']
     suite_lifecycle.run(rep, tier, props=('C09',))
     suite_drolifecycle.run(rep, tier, props=('C09',))
+    suite_sharing.run(rep, tier, props=('C09',))
     return rep.finish()
 
 
